@@ -172,7 +172,7 @@ impl Arena {
 //@@fn file=unsync.rs scope="impl Arena {" name=validate_segment xlate=unsync st=ref props=C10
 //@contract
   requires
-    offset as int + 8 <= u32::MAX as int, // [C04]
+    offset != 0 && size != 0 ==> offset as int + 8 <= u32::MAX as int, // [C04]
   ensures
     r == seg_valid(st@, offset as int, size as int), // [C10]
 //@before 1 /let aligned_offset = align_offset::<u64>/
@@ -182,10 +182,10 @@ impl Arena {
 //@@fn file=unsync.rs scope="impl Arena {" name=try_new_segment xlate=unsync st=mut props=C10,C20
 //@contract
   requires
-    offset as int + 8 <= u32::MAX as int, // [C04]
-    offset as int + size as int <= u32::MAX as int, // [C04]
-    old(st)@.discarded + (if seg_valid(old(st)@, offset as int, size as int) { 0 } else { size as int }) <= u32::MAX as int, // [C20]
-    old(st)@.writable, // [C09]
+    offset != 0 && size != 0 ==> offset as int + 8 <= u32::MAX as int, // [C04]
+    offset != 0 && size != 0 ==> offset as int + size as int <= u32::MAX as int, // [C04]
+    offset != 0 && size != 0 ==> old(st)@.discarded + (if seg_valid(old(st)@, offset as int, size as int) { 0 } else { size as int }) <= u32::MAX as int, // [C20]
+    old(st)@.writable || offset == 0 || size == 0, // [C09]
   ensures
     r.is_some() == seg_valid(old(st)@, offset as int, size as int), // [C10]
     r matches Some(seg) ==> final(st)@ == old(st)@ && seg_node(offset as int, size as int) == (seg.ptr_offset, seg.data_size)
@@ -286,9 +286,8 @@ impl Arena {
   requires
     wf(self.av(), old(st)@),
     self.freelist == Freelist::Pessimistic,
-    old(st)@.writable, // [C09]
-    self.data_offset as int <= offset as int, offset as int + size as int <= old(st)@.allocated, // [C01]
-    clear_of_list(old(st)@.list, offset as int, offset as int + size as int), // [C01 C10]
+    old(st)@.writable || offset == 0 || size == 0, // [C09]
+    extent_ok(self.av(), old(st)@, offset as int, size as int), // [C01 C10]
     old(st)@.discarded + (if seg_valid(old(st)@, offset as int, size as int) { 8 } else { size as int }) <= u32::MAX as int, // [C20]
   ensures
     wf_shape(self.av(), final(st)@), // [C01 C10]
@@ -296,12 +295,13 @@ impl Arena {
     r == seg_valid(old(st)@, offset as int, size as int), // [C10]
     r ==> final(st)@.list == list_insert(old(st)@.list, seg_node(offset as int, size as int), true), // [C10]
     r ==> final(st)@.discarded == old(st)@.discarded + 8, // [C20]
-    !r ==> final(st)@ == (SV { discarded: old(st)@.discarded + size as int, ..old(st)@ }), // [C20]
+    !r ==> final(st)@ == (SV { discarded: old(st)@.discarded + (if offset == 0 || size == 0 { 0 } else { size as int }), ..old(st)@ }), // [C20]
     frame_ok(old(st)@.list, old(st)@.bytes, final(st)@.bytes, offset as int, offset as int + size as int), // [C01]
+    free_grows(old(st)@, final(st)@, offset as int, offset as int + size as int), // [C01]
     final(st)@.allocated == old(st)@.allocated, final(st)@.min_seg == old(st)@.min_seg, // [C01]
     final(st)@.writable == old(st)@.writable, final(st)@.lo == old(st)@.lo,
 //@before 1 /let Some\(mut segment_node\) = self\.try_new_segment/
-    proof { lemma_seg_node_bounds(offset as int, size as int); }
+    proof { lemma_seg_node_bounds(offset as int, size as int); lemma_seg_valid_extent(self.av(), old(st)@, offset as int, size as int); }
 //@before 1 /return false;/
       proof { lemma_wf_frame(self.av(), old(st)@, st@, 0, 0); }
 //@after 1 /let Some\(mut segment_node\) = self\.try_new_segment/
@@ -327,6 +327,7 @@ impl Arena {
       lemma_insert_shape(self.av(), s0, st@, i, n);
       lemma_insert_order(self.av(), s0, st@, i, n, true);
       lemma_frame_widen(s0.list, s0.bytes, st@.bytes, n.0 as int, n.0 as int + 8, offset as int, offset as int + size as int);
+      lemma_free_grows_insert(s0, st@, i + 1, n, offset as int, offset as int + size as int);
     }
     let ghost s2 = st@;
 //@after 1 /self\.increase_discarded\(st, segment_node\.data_offset - segment_node\.ptr_offset\);/
@@ -340,9 +341,8 @@ impl Arena {
   requires
     wf(self.av(), old(st)@),
     self.freelist == Freelist::Optimistic,
-    old(st)@.writable, // [C09]
-    self.data_offset as int <= offset as int, offset as int + size as int <= old(st)@.allocated, // [C01]
-    clear_of_list(old(st)@.list, offset as int, offset as int + size as int), // [C01 C10]
+    old(st)@.writable || offset == 0 || size == 0, // [C09]
+    extent_ok(self.av(), old(st)@, offset as int, size as int), // [C01 C10]
     old(st)@.discarded + (if seg_valid(old(st)@, offset as int, size as int) { 8 } else { size as int }) <= u32::MAX as int, // [C20]
   ensures
     wf_shape(self.av(), final(st)@), // [C01 C10]
@@ -350,12 +350,13 @@ impl Arena {
     r == seg_valid(old(st)@, offset as int, size as int), // [C10]
     r ==> final(st)@.list == list_insert(old(st)@.list, seg_node(offset as int, size as int), false), // [C10]
     r ==> final(st)@.discarded == old(st)@.discarded + 8, // [C20]
-    !r ==> final(st)@ == (SV { discarded: old(st)@.discarded + size as int, ..old(st)@ }), // [C20]
+    !r ==> final(st)@ == (SV { discarded: old(st)@.discarded + (if offset == 0 || size == 0 { 0 } else { size as int }), ..old(st)@ }), // [C20]
     frame_ok(old(st)@.list, old(st)@.bytes, final(st)@.bytes, offset as int, offset as int + size as int), // [C01]
+    free_grows(old(st)@, final(st)@, offset as int, offset as int + size as int), // [C01]
     final(st)@.allocated == old(st)@.allocated, final(st)@.min_seg == old(st)@.min_seg, // [C01]
     final(st)@.writable == old(st)@.writable, final(st)@.lo == old(st)@.lo,
 //@before 1 /let Some\(mut segment_node\) = self\.try_new_segment/
-    proof { lemma_seg_node_bounds(offset as int, size as int); }
+    proof { lemma_seg_node_bounds(offset as int, size as int); lemma_seg_valid_extent(self.av(), old(st)@, offset as int, size as int); }
 //@before 1 /return false;/
       proof { lemma_wf_frame(self.av(), old(st)@, st@, 0, 0); }
 //@after 1 /let Some\(mut segment_node\) = self\.try_new_segment/
@@ -392,6 +393,7 @@ impl Arena {
       lemma_insert_shape(self.av(), s0, st@, i, n);
       lemma_insert_order(self.av(), s0, st@, i, n, false);
       lemma_frame_widen(s0.list, s0.bytes, st@.bytes, n.0 as int, n.0 as int + 8, offset as int, offset as int + size as int);
+      lemma_free_grows_insert(s0, st@, i + 1, n, offset as int, offset as int + size as int);
     }
     let ghost s2 = st@;
 //@after 1 /self\.increase_discarded\(st, segment_node\.data_offset - segment_node\.ptr_offset\);/
@@ -606,6 +608,181 @@ impl Arena {
       let ghost s1 = st@;
 //@after 1 /st\.hdr\.discarded \+= segment_node\.data_size;/
       proof { lemma_wf_frame(self.av(), s1, st@, 0, 0); }
+//@@end
+
+// ---- top-level allocation -------------------------------------------------------------------------------------------
+
+//@@fn file=unsync.rs scope="impl Arena {" name=alloc_bytes_in xlate=unsync st=mut props=C01,C03,C04,C08,C09,C10,C20
+//@contract
+  requires
+    wf(self.av(), old(st)@),
+    old(st)@.discarded + 8 <= u32::MAX as int, // [C20]
+  ensures
+    !self.ro && size == 0 ==> (r matches Ok(None)) && final(st)@ == old(st)@, // [C03]
+    !self.ro && size > 0 ==> (r.is_err() <==> alloc_fails(self.av(), old(st)@, size as int, size as int)), // [C04 C10]
+    r matches Ok(None) ==> size == 0, // [C03]
+    r matches Ok(Some(m)) ==> alloc_bytes_ok(self.av(), old(st)@, final(st)@, size, m.memory_offset as int, m.memory_size as int, m.ptr_offset as int, m.ptr_size as int), // [C03 C10 C01 C20]
+    r matches Ok(Some(m)) ==> m.ptr_size == size, // [C03]
+    r matches Ok(Some(m)) ==> all_zero(final(st)@.bytes, m.ptr_offset as int, m.ptr_offset as int + m.ptr_size as int), // [C08]
+    self.ro ==> r matches Err(Error::ReadOnly), // [C09 C04]
+    r.is_err() ==> final(st)@ == old(st)@, // [C04 C09]
+    r matches Err(e) ==> (e matches Error::ReadOnly) || (e matches Error::InsufficientSpace { .. }), // [C04]
+    r matches Ok(Some(m)) ==> meta_ok(self.av(), final(st)@, m.memory_offset as int, m.memory_size as int, m.ptr_offset as int, m.ptr_size as int), // [C01]
+    r matches Ok(Some(m)) ==> m.parent_ptr == self.ptr as *const u8,
+    free_shrinks(old(st)@, final(st)@), // [C01]
+    frame_ok(old(st)@.list, old(st)@.bytes, final(st)@.bytes, old(st)@.allocated, self.cap as int), // [C01]
+    wf_shape(self.av(), final(st)@), // [C01 C10]
+    wf_order(self.av(), final(st)@), // [C10]
+//@before 1 /let want = /
+    let ghost s0 = st@;
+//@after 1 /unsafe \{ allocated\.clear\(self, st\) \};/
+      proof {
+        lemma_nodes_below(self.av(), s0);
+        lemma_zero_written(s0.bytes, s0.allocated, size as int);
+        lemma_wf_frame(self.av(), s0, st@, s0.allocated, s0.allocated + size as int);
+      }
+//@@end
+
+//@@fn file=unsync.rs scope="impl Arena {" name=alloc_in xlate=unsync st=mut props=C01,C03,C04,C08,C09,C10,C20
+//@contract
+  requires
+    wf(self.av(), old(st)@),
+    old(st)@.discarded + 8 <= u32::MAX as int, // [C20]
+    layout_ok::<T>(), size_of::<T>() as int + align_of::<T>() as int <= u32::MAX as int,
+    self.cap as int + align_of::<T>() as int <= u32::MAX as int,
+  ensures
+    !self.ro && size_of::<T>() == 0 ==> (r matches Ok(None)) && final(st)@ == old(st)@, // [C03]
+    !self.ro && size_of::<T>() > 0 ==> (r.is_err() <==> alloc_fails(self.av(), old(st)@,
+        align_up(old(st)@.allocated, align_of::<T>() as int) + size_of::<T>() as int - old(st)@.allocated, pad_of::<T>())), // [C04 C10]
+    r matches Ok(None) ==> size_of::<T>() == 0, // [C03]
+    r matches Ok(Some(m)) ==> alloc_typed_ok::<T>(self.av(), old(st)@, final(st)@, m.memory_offset as int, m.memory_size as int, m.ptr_offset as int, m.ptr_size as int), // [C03 C10 C01 C20]
+    self.ro ==> r matches Err(Error::ReadOnly), // [C09 C04]
+    r.is_err() ==> final(st)@ == old(st)@, // [C04 C09]
+    r matches Err(e) ==> (e matches Error::ReadOnly) || (e matches Error::InsufficientSpace { .. }), // [C04]
+    r matches Ok(Some(m)) ==> meta_ok(self.av(), final(st)@, m.memory_offset as int, m.memory_size as int, m.ptr_offset as int, m.ptr_size as int), // [C01]
+    r matches Ok(Some(m)) ==> m.parent_ptr == self.ptr as *const u8,
+    free_shrinks(old(st)@, final(st)@), // [C01]
+    frame_ok(old(st)@.list, old(st)@.bytes, final(st)@.bytes, old(st)@.allocated, self.cap as int), // [C01]
+    wf_shape(self.av(), final(st)@), // [C01 C10]
+    wf_order(self.av(), final(st)@), // [C10]
+//@before 1 /let align_offset = align_offset::<T>\(allocated\);/
+    let ghost s0 = st@;
+//@after 1 /unsafe \{ allocated\.clear\(self, st\) \};/
+      proof {
+        lemma_nodes_below(self.av(), s0);
+        lemma_wf_frame(self.av(), s0, st@, s0.allocated, self.cap as int);
+      }
+//@after 2 /allocated\.align_to::<T>\(\);/
+          proof {
+            lemma_align_up_props(allocated.memory_offset as int, align_of::<T>() as int);
+            lemma_clear_narrow(st@.list, allocated.memory_offset as int, allocated.memory_offset as int + 8 + pad_of::<T>(), allocated.memory_offset as int, allocated.ptr_offset as int + allocated.ptr_size as int);
+          }
+//@after 3 /allocated\.align_to::<T>\(\);/
+          proof {
+            lemma_align_up_props(allocated.memory_offset as int, align_of::<T>() as int);
+            lemma_clear_narrow(st@.list, allocated.memory_offset as int, allocated.memory_offset as int + 8 + pad_of::<T>(), allocated.memory_offset as int, allocated.ptr_offset as int + allocated.ptr_size as int);
+          }
+//@@end
+
+//@@fn file=unsync.rs scope="impl Arena {" name=alloc_aligned_bytes_in xlate=unsync st=mut props=C01,C03,C04,C09,C10,C20
+//@contract
+  requires
+    wf(self.av(), old(st)@),
+    old(st)@.discarded + 8 <= u32::MAX as int, // [C20]
+    layout_ok::<T>(), size_of::<T>() as int + align_of::<T>() as int <= u32::MAX as int,
+    self.cap as int + align_of::<T>() as int <= u32::MAX as int,
+  ensures
+    !self.ro && size_of::<T>() == 0 && extra == 0 ==> (r matches Ok(None)) && final(st)@ == old(st)@, // [C03]
+    r matches Ok(None) ==> size_of::<T>() == 0 && extra == 0, // [C03]
+    !self.ro && !(size_of::<T>() == 0 && extra == 0) ==> (r.is_err() <==> alloc_fails(self.av(), old(st)@,
+        align_up(old(st)@.allocated, align_of::<T>() as int) + size_of::<T>() as int + extra as int - old(st)@.allocated, pad_of::<T>() + extra as int)), // [C04 C10]
+    r matches Ok(Some(m)) ==> (if size_of::<T>() == 0 && align_of::<T>() == 1 {
+        alloc_bytes_ok(self.av(), old(st)@, final(st)@, extra, m.memory_offset as int, m.memory_size as int, m.ptr_offset as int, m.ptr_size as int)
+      } else {
+        alloc_aligned_ok::<T>(self.av(), old(st)@, final(st)@, extra, m.memory_offset as int, m.memory_size as int, m.ptr_offset as int, m.ptr_size as int)
+      }), // [C03 C10 C01 C20]
+    r matches Ok(Some(m)) ==> m.ptr_offset as int % (align_of::<T>() as int) == 0 && m.ptr_size as int >= size_of::<T>() as int + extra as int, // [C03]
+    self.ro ==> r matches Err(Error::ReadOnly), // [C09 C04]
+    r.is_err() ==> final(st)@ == old(st)@, // [C04 C09]
+    r matches Err(e) ==> (e matches Error::ReadOnly) || (e matches Error::InsufficientSpace { .. }), // [C04]
+    r matches Ok(Some(m)) ==> meta_ok(self.av(), final(st)@, m.memory_offset as int, m.memory_size as int, m.ptr_offset as int, m.ptr_size as int), // [C01]
+    r matches Ok(Some(m)) ==> m.parent_ptr == self.ptr as *const u8,
+    free_shrinks(old(st)@, final(st)@), // [C01]
+    frame_ok(old(st)@.list, old(st)@.bytes, final(st)@.bytes, old(st)@.allocated, self.cap as int), // [C01]
+    wf_shape(self.av(), final(st)@), // [C01 C10]
+    wf_order(self.av(), final(st)@), // [C10]
+//@before 1 /let aligned_offset = align_offset::<T>\(allocated\);/
+    let ghost s0 = st@;
+//@after 1 /allocated\.align_bytes_to::<T>\(\);/
+      proof {
+        lemma_nodes_below(self.av(), s0);
+        lemma_wf_frame(self.av(), s0, st@, s0.allocated, self.cap as int);
+      }
+//@before 1 /match self\.freelist \{/
+    proof { lemma_pick_policy(self.av(), s0, padded); }
+//@before 1 /bytes\.align_bytes_to::<T>\(\);/
+            proof { lemma_align_up_props(bytes.memory_offset as int, align_of::<T>() as int); }
+//@before 2 /bytes\.align_bytes_to::<T>\(\);/
+            proof { lemma_align_up_props(bytes.memory_offset as int, align_of::<T>() as int); }
+//@@end
+
+// ---- release, discard, rewind, accessors (trait methods) ---------------------------------------------------------------
+
+//@@fn file=unsync.rs scope="impl Allocator for Arena {" name=dealloc xlate=unsync st=mut props=C01,C10,C13,C20
+//@contract
+  requires
+    wf(self.av(), old(st)@),
+    old(st)@.writable || (offset == 0 && size == 0), // [C09]
+    extent_ok(self.av(), old(st)@, offset as int, size as int), // [C01 C13]
+    old(st)@.discarded + size as int <= u32::MAX as int, // [C20]
+  ensures
+    dealloc_post(self.av(), old(st)@, final(st)@, offset as int, size as int, r), // [C10 C20 C01]
+    free_grows(old(st)@, final(st)@, offset as int, offset as int + size as int), // [C01]
+    frame_ok(old(st)@.list, old(st)@.bytes, final(st)@.bytes, offset as int, offset as int + size as int), // [C01]
+    wf_shape(self.av(), final(st)@), // [C01 C10]
+    wf_order(self.av(), final(st)@), // [C10]
+//@before 1 /st\.hdr\.allocated = offset;/
+      let ghost s0 = st@;
+//@after 1 /st\.hdr\.allocated = offset;/
+      proof { lemma_dealloc_top(self.av(), s0, st@, offset as int, size as int); }
+//@@end
+
+//@@fn file=unsync.rs scope="impl Allocator for Arena {" name=discard_freelist xlate=unsync st=mut props=C20,C09,C10
+//@contract
+  requires
+    wf(self.av(), old(st)@),
+    old(st)@.discarded + sum_sizes(old(st)@.list) <= u32::MAX as int, // [C20]
+  ensures
+    self.ro ==> (r matches Err(Error::ReadOnly)) && final(st)@ == old(st)@, // [C09 C20]
+    !self.ro ==> (r matches Ok(n) && n as int == sum_sizes(old(st)@.list)), // [C20]
+    !self.ro ==> final(st)@.list.len() == 0 && final(st)@.discarded == old(st)@.discarded + sum_sizes(old(st)@.list), // [C20 C10]
+    final(st)@.allocated == old(st)@.allocated && final(st)@.bytes == old(st)@.bytes && final(st)@.min_seg == old(st)@.min_seg, // [C20 C01]
+    wf(self.av(), final(st)@), // [C10]
+//@@end
+
+//@@fn file=unsync.rs scope="impl Allocator for Arena {" name=discarded xlate=unsync st=ref props=C20
+//@contract
+  ensures r as int == st@.discarded, // [C20 C11]
+//@@end
+
+//@@fn file=unsync.rs scope="impl Allocator for Arena {" name=minimum_segment_size xlate=unsync st=ref props=C10
+//@contract
+  ensures r as int == st@.min_seg, // [C10 C11 C16]
+//@@end
+
+//@@fn file=unsync.rs scope="impl Allocator for Arena {" name=set_minimum_segment_size xlate=unsync st=mut props=C10,C09
+//@contract
+  requires old(st)@.writable, // [C09]
+  ensures final(st)@ == (SV { min_seg: size as int, ..old(st)@ }), // [C10 C11]
+//@@end
+
+//@@fn file=unsync.rs scope="impl Allocator for Arena {" name=rewind xlate=unsync st=mut props=C17
+//@contract
+  requires
+    geom(self.av(), old(st)@),
+  ensures
+    final(st)@ == (SV { allocated: rewind_target(self.av(), old(st)@, pos), ..old(st)@ }), // [C17]
+    self.data_offset as int <= final(st)@.allocated <= self.cap as int, // [C17]
 //@@end
 
 } // impl Arena
